@@ -4,5 +4,6 @@ CONSTANT MaxChunk = 3
 CONSTANT AVariant = "single_read"
 INVARIANT ReadLikeSlice
 INVARIANT ReadExact
+INVARIANT ReadContent
 INVARIANT WriteComplete
 CHECK_DEADLOCK FALSE
